@@ -133,6 +133,97 @@ func (pr *prover) lin(e ast.Expr) (lexpr, bool) {
 	return lexpr{}, false
 }
 
+// initFacts: what `x := e` (the init statement of an if or for) establishes: x = e for a linear e.
+func initFacts(pr *prover, init ast.Stmt, facts []fact) []fact {
+	as, ok := init.(*ast.AssignStmt)
+	if !ok || len(as.Lhs) != 1 || len(as.Rhs) != 1 || (as.Tok != token.DEFINE && as.Tok != token.ASSIGN) {
+		return facts
+	}
+	lt := pr.term(as.Lhs[0])
+	r, ok := pr.lin(as.Rhs[0])
+	if !ok {
+		return facts
+	}
+	if _, self := r.T[lt]; self {
+		return facts
+	}
+	out := append([]fact{}, facts...)
+	l := lexpr{T: map[string]int{lt: 1}}
+	out = append(out, fact{E: l.plus(r, -1)}, fact{E: r.plus(l, -1)})
+	nonNeg := r.K >= 0
+	for t, c := range r.T {
+		if strings.HasPrefix(t, "len(") {
+			out = append(out, fact{E: lexpr{T: map[string]int{t: 1}}})
+			if c < 0 {
+				nonNeg = false
+			}
+		} else {
+			nonNeg = false
+		}
+	}
+	if nonNeg {
+		out = append(out, fact{E: l}) // a sum of lengths and a non-negative constant
+	}
+	return out
+}
+
+// loopMoves: how the loop (body and post statement) changes term t.
+func loopMoves(pr *prover, loop *ast.ForStmt, t string) (inc, dec, other bool) {
+	base := t
+	if strings.HasPrefix(t, "len(") && strings.HasSuffix(t, ")") {
+		base = t[4 : len(t)-1]
+	}
+	visit := func(n ast.Node) {
+		if n == nil {
+			return
+		}
+		ast.Inspect(n, func(y ast.Node) bool {
+			switch z := y.(type) {
+			case *ast.AssignStmt:
+				for _, l := range z.Lhs {
+					lt := pr.term(l)
+					if lt == base && base != t {
+						other = true // the collection itself is assigned: its length is unknown afterwards
+					}
+					if lt != t {
+						continue
+					}
+					switch z.Tok {
+					case token.ADD_ASSIGN, token.SUB_ASSIGN:
+						if tv := pr.info.Types[z.Rhs[0]]; tv.Value != nil && tv.Value.String() != "" && !strings.HasPrefix(tv.Value.String(), "-") {
+							if z.Tok == token.ADD_ASSIGN {
+								inc = true
+							} else {
+								dec = true
+							}
+						} else {
+							other = true
+						}
+					default:
+						other = true
+					}
+				}
+			case *ast.IncDecStmt:
+				if pr.term(z.X) == t {
+					if z.Tok == token.INC {
+						inc = true
+					} else {
+						dec = true
+					}
+				}
+			case *ast.UnaryExpr:
+				if z.Op == token.AND && pr.term(z.X) == t {
+					other = true
+				}
+			}
+			return true
+		})
+	}
+	visit(loop.Body)
+	visit(loop.Post)
+	return
+}
+
 // narrower: converting from `from` to `to` can change the value (fewer bits, or signed → unsigned).
 func narrower(to, from *types.Basic) bool {
 	size := func(b *types.Basic) int {
@@ -768,6 +859,7 @@ func (a *Analysis) IdxGuard() *report.RuleResult {
 				case *ast.IfStmt:
 					if x.Init != nil {
 						walk([]ast.Stmt{x.Init}, facts)
+						facts = initFacts(pr, x.Init, facts)
 					}
 					visitExpr(x.Cond, facts, false)
 					tf := append(append([]fact{}, facts...), pr.factsOf(x.Cond, true)...)
@@ -825,6 +917,26 @@ func (a *Analysis) IdxGuard() *report.RuleResult {
 									lf = append(lf, fact{E: l.plus(r, -1)})
 								}
 							}
+						}
+					}
+					// a fact stays valid in the loop if every term in it is either untouched by the loop, or only
+					// moves in the direction that keeps the fact (coefficient > 0: only incremented; < 0: only decremented)
+					for _, f := range initFacts(pr, x.Init, facts) {
+						if f.Ne || len(f.E.T) == 1 {
+							continue // single-term facts: the rule below
+						}
+						keep := true
+						for t, c := range f.E.T {
+							inc, dec, other := loopMoves(pr, x, t)
+							switch {
+							case other:
+								keep = false
+							case c > 0 && dec, c < 0 && inc:
+								keep = false
+							}
+						}
+						if keep {
+							lf = append(lf, f)
 						}
 					}
 					// lower bounds of variables that the loop only increments stay valid
